@@ -1,8 +1,10 @@
 """Worker-side context: counters, predicate evaluation, violations, digests."""
+import contextlib
 import hashlib
 import json
 import math
 import os
+import sys
 import time
 from collections import Counter
 
@@ -169,6 +171,74 @@ def present(a, kind):
             return None
         return a.astype(np.int64)
     raise ValueError(kind)
+
+
+_LIBC = None
+
+
+def _c_stdout_unbuffered():
+    """Make the C library's stdout unbuffered (once per process), so that a failing
+    write shows at the printing call itself and not at some later flush."""
+    global _LIBC
+    if _LIBC is None:
+        import ctypes
+        _LIBC = ctypes.CDLL(None)
+        so = ctypes.c_void_p.in_dll(_LIBC, "stdout")
+        _LIBC.fflush(so)
+        _LIBC.setvbuf(so, None, 2, 0)          # _IONBF
+
+
+@contextlib.contextmanager
+def dirty_process_state(chdir=None):
+    """The state other code may leave a process in, none of which is an input of the
+    library: errno = ERANGE left by an earlier libm call, floating-point status flags
+    raised, file descriptor 1 unwritable (closed pipe, full disk: every C-level print
+    fails), terse numpy / pandas print options, optionally another working directory.
+    Python-level prints of the library go to a string buffer meanwhile."""
+    import io
+    import pandas as pd
+    _c_stdout_unbuffered()
+    sys.stdout.flush()
+    saved_fd = os.dup(1)
+    full = os.open("/dev/full", os.O_WRONLY)
+    os.dup2(full, 1)
+    os.close(full)
+    py_out, sys.stdout = sys.stdout, io.StringIO()
+    cwd = os.getcwd()
+    po = np.get_printoptions()
+    pdo = {k: pd.get_option(k) for k in ("display.precision", "display.max_rows",
+                                         "display.max_columns", "display.width",
+                                         "display.max_colwidth", "display.max_seq_items")}
+    try:
+        if chdir:
+            os.chdir(chdir)
+        np.set_printoptions(precision=2, threshold=4, edgeitems=1, linewidth=30,
+                            suppress=True)
+        pd.set_option("display.precision", 2)
+        pd.set_option("display.max_rows", 4)
+        pd.set_option("display.max_columns", 2)
+        pd.set_option("display.width", 20)
+        pd.set_option("display.max_colwidth", 6)
+        pd.set_option("display.max_seq_items", 3)
+        with np.errstate(all="ignore"):
+            np.float64(1.0) / np.float64(0.0)
+            np.float64(1e308) * np.float64(1e10)
+            np.sqrt(np.float64(-1.0))
+        try:
+            math.exp(-1000.0)                   # leaves errno = ERANGE behind
+            math.pow(1e-200, 2)
+        except (OverflowError, ValueError):
+            pass
+        yield
+    finally:
+        np.set_printoptions(**po)
+        for k, v in pdo.items():
+            pd.set_option(k, v)
+        if chdir:
+            os.chdir(cwd)
+        sys.stdout = py_out
+        os.dup2(saved_fd, 1)
+        os.close(saved_fd)
 
 
 def size_edges(lo=1, hi=10001):
@@ -388,6 +458,21 @@ class Ctx:
                    f"{label}|repeated-call-on-same-arguments-differs", case,
                    lambda: {"first": jsonable(truncate(jsonable(keep))),
                             "third": jsonable(truncate(jsonable(r3))),
+                            "fresh": jsonable(truncate(jsonable(base)))})
+        # the same call in a process that other code left in an unusual state (none of
+        # it is an input of the function)
+        try:
+            with dirty_process_state():
+                rd = fn(*args)
+            okd, exd = same_result(rd, base, rtol, atol), None
+        except Exception as e:
+            okd, exd, rd = False, repr(e)[:300], None
+        self.tag("dirty-process-state")
+        self.api(label)
+        self.check("reuse.process-state", okd,
+                   f"{label}|result-depends-on-process-state", case,
+                   lambda: {"exception": exd,
+                            "result": jsonable(truncate(jsonable(rd))),
                             "fresh": jsonable(truncate(jsonable(base)))})
         # the caller refills its own arrays in place (a loop over sites re-using one
         # buffer) and calls again: the answer is the one for the new content, i.e. what
